@@ -246,6 +246,34 @@ var _ = reserr.ErrAccessDenied
 
 //@ immutable Service.enc
 
+// --- configuration (C14, C17) ---
+
+//@ func validateAllowOrigin
+//@   trusted
+//@   ensures len(s) == old(len(s))
+//@   assigns elems(s)
+
+// prepare: a configuration is accepted only if the header-auth settings are valid resource
+// methods (valid resource id without query, valid method part) and the mapped PUT/DELETE/PATCH
+// methods are valid method names; the origin allow-list is never empty.
+//@ func (*Config).prepare
+//@   requires c != nil
+//@   ensures[C14] result == nil && c.HeaderAuth != nil ==> codec.predValidRID(c.headerAuthRID, false) && codec.predValidPart(c.headerAuthAction)
+//@   ensures[C14] result == nil && c.WSHeaderAuth != nil ==> codec.predValidRID(c.wsHeaderAuthRID, false) && codec.predValidPart(c.wsHeaderAuthAction)
+//@   ensures[C14] result == nil && c.PUTMethod != nil ==> codec.predValidPart(*c.PUTMethod)
+//@   ensures[C14] result == nil && c.DELETEMethod != nil ==> codec.predValidPart(*c.DELETEMethod)
+//@   ensures[C14] result == nil && c.PATCHMethod != nil ==> codec.predValidPart(*c.PATCHMethod)
+//@   ensures[C17] result == nil ==> len(c.allowOrigin) > 0
+//@   safety[C15]
+
+// SetVersion never panics and accepts only protocol versions 1.x.y.
+//@ func (*wsConn).SetVersion
+//@   requires c != nil
+//@   ensures[C15] result1 == nil && protocol != "" ==> 1000000 <= c.protocolVer && c.protocolVer < 2000000
+//@   ensures[C15] result1 != nil ==> c.protocolVer == old(c.protocolVer) && reserr.predErrOK(result1)
+//@   safety[C15]
+//@   loop 1 invariant 0 <= i && i <= 3 && len(parts) == 3 && c.protocolVer == old(c.protocolVer)
+
 // --- HTTP entry (C14, C17) ---
 
 // PathToRID / PathToRIDAction never panic on any path, query and prefix.
